@@ -158,7 +158,7 @@ func withZero(e *Enum) []*EnumOption {
 
 func (w *writer) enumOptions(depth int, kw string, opts []*EnumOption) {
 	for _, o := range opts {
-		if len(o.Info) == 0 {
+		if len(o.Info) == 0 && o.Number == nil {
 			if o.Desc != "" && !strings.Contains(o.Desc, "\n") && w.pick(2) == 0 {
 				w.line(depth, kw+" "+o.Name+" | "+o.Desc)
 			} else if o.Desc != "" {
@@ -172,6 +172,9 @@ func (w *writer) enumOptions(depth int, kw string, opts []*EnumOption) {
 		}
 		w.line(depth, kw+" "+o.Name+" {")
 		w.desc(depth+1, o.Desc)
+		if o.Number != nil {
+			w.line(depth+1, "number = "+strconv.Itoa(int(*o.Number)))
+		}
 		keys := make([]string, 0, len(o.Info))
 		for k := range o.Info {
 			keys = append(keys, k)
